@@ -47,6 +47,7 @@ type query struct {
 	vars    map[string]interface{}
 	varsets []map[string]interface{} // alternative assignments: the same text must be served correctly for each
 	note    string
+	group   string // queries of one group are always drawn into a history together
 }
 
 // ---- pool construction
@@ -296,8 +297,8 @@ func mimicry(m *model.Schema) []query {
 		}
 	}
 	out = append(out, query{text: `{ __typename`, note: "syntax-error"}, query{text: `{ nope }`, note: "validation-error"},
-		query{text: `query A { __typename } query B { __typename }`, op: "", note: "ambiguous"}, query{text: `query A { __typename } query B { b: __typename }`, op: "B", note: "named-B"},
-		query{text: `query A { __typename } query B { b: __typename }`, op: "A", note: "named-A"}, query{text: `query A { __typename }`, op: "Z", note: "unknown-op"})
+		query{text: `query A { __typename } query B { __typename }`, op: "", note: "ambiguous"}, query{text: `query A { __typename } query B { b: __typename }`, op: "B", note: "named-B", group: "named-ops"},
+		query{text: `query A { __typename } query B { b: __typename }`, op: "A", note: "named-A", group: "named-ops"}, query{text: `query A { __typename }`, op: "Z", note: "unknown-op"})
 	return out
 }
 
@@ -409,6 +410,24 @@ func run(c *core.Child) {
 			}
 			pool = append(pool, vs...)
 		}
+		// generated documents with several operations, each requested by name
+		for di := 0; di < c.Scale(2, 4); di++ {
+			dr := c.RNG(6, uint64(si), uint64(di))
+			o := typedoc.DefaultOptions(dr)
+			o.Ops = 3
+			o.ArgVarPct = 10
+			o.Mutation = false
+			d := typedoc.Gen(dr, m, o)
+			text := nast.Print(d.AST)
+			for oi, op := range d.Ops {
+				if op.Name == nil {
+					continue
+				}
+				q := query{text: text, op: op.Name.Value, note: fmt.Sprintf("multiop-typed-%d-%d", di, oi), group: fmt.Sprintf("multiop-typed-%d", di)}
+				q.vars = typedoc.Assignment(c.RNG(7, uint64(si), uint64(di), uint64(oi)), m, d, op, uint64(oi))
+				pool = append(pool, q)
+			}
+		}
 		pool = append(pool, mimicry(m)...)
 		if si == 0 {
 			pool = append(pool, probeQueries()...)
@@ -448,20 +467,24 @@ func run(c *core.Child) {
 
 func history(c *core.Child, r *core.RNG, m *model.Schema, vseed uint64, pool []query, n int, id string) {
 	// cache side: up to 3 builds of the same model (same shape, different pointers)
-	var envs []*build.Env
+	// Each build has its own value universe, so a plan bound to one schema
+	// but served for another shows in the response; the from-scratch side is
+	// a further build with the same universe as the schema it shadows.
+	var envs, scratches []*build.Env
 	for i := 0; i < 3; i++ {
-		e, err := build.Build(m, vseed)
+		e, err := build.Build(m, vseed+uint64(i))
 		if err != nil {
 			return
 		}
 		e.MutateArgs = true
 		envs = append(envs, e)
+		sc, err := build.Build(m, vseed+uint64(i))
+		if err != nil {
+			return
+		}
+		sc.MutateArgs = true
+		scratches = append(scratches, sc)
 	}
-	scratch, err := build.Build(m, vseed)
-	if err != nil {
-		return
-	}
-	scratch.MutateArgs = true
 	opts := graphql.PlanCacheOptions{MaxEntries: []int{1, 2, 3, 1024}[r.Intn(4)], Normalize: r.Bool()}
 	if r.Chance(15) {
 		opts.MaxQueryBytes = 16
@@ -480,8 +503,21 @@ func history(c *core.Child, r *core.RNG, m *model.Schema, vseed uint64, pool []q
 	}
 	perm := r.Perm(len(pool))
 	sub := make([]query, 0, k)
+	inSub := map[int]bool{}
 	for _, i := range perm[:k] {
+		if inSub[i] {
+			continue
+		}
+		inSub[i] = true
 		sub = append(sub, pool[i])
+		if g := pool[i].group; g != "" {
+			for j := range pool {
+				if pool[j].group == g && !inSub[j] {
+					inSub[j] = true
+					sub = append(sub, pool[j])
+				}
+			}
+		}
 	}
 	cur := 0 // current schema index
 	lookups := uint64(0)
@@ -569,6 +605,7 @@ func history(c *core.Child, r *core.RNG, m *model.Schema, vseed uint64, pool []q
 			}
 		}
 		// from-scratch side
+		scratch := scratches[cur]
 		scratch.SetOutcomes(nil)
 		scratch.Log.Reset()
 		var want *graphql.Result
@@ -727,6 +764,22 @@ func probeQueries() []query {
 	}
 	sort.Strings(names)
 	var out []query
+	// several operations in one document, requested by name; in the first two
+	// the normalised form does not validate (the literal repeated in a
+	// fragment), so the cache serves the document under its own text
+	multi := []string{
+		`query A { x: s(a: "v") ...F } query B { ...F k2: two(a: 2) x: s(a: "v") } fragment F on Q { x: s(a: "v") }`,
+		`query A { x: s(a: "v") ...F } query B { k1: s(a: "other") } query C { ...F obj { y } } fragment F on Q { x: s(a: "v") }`,
+		`query A { k: s(a: "1") } query B { k: s(a: "2") } query C { k: l(a: ["1"]) }`,
+		`query A($v: String = "a") { k: s(a: $v) } query B($v: String = "b") { k: s(a: $v) }`,
+	}
+	for mi, text := range multi {
+		for _, op := range []string{"A", "B", "C"} {
+			if strings.Contains(text, "query "+op) {
+				out = append(out, query{text: text, op: op, note: fmt.Sprintf("probe-multiop-%d-%s", mi, op), group: fmt.Sprintf("multiop-%d", mi)})
+			}
+		}
+	}
 	for _, n := range names {
 		q := query{text: texts[n], note: "probe-" + n}
 		if n == "literal-vs-variable" {
